@@ -92,6 +92,9 @@ static void mk_alphabet(void)
 	addl(L_RAWDATA, 0, 0, "rawdata(port2)");
 	addl(L_LAZY, 1, 0, "lazy-on");
 	addl(L_LAZY, 0, 0, "lazy-off");
+	/* a fragment-size request in mid-session (a relay re-delivering the handshake's, or a client re-probing): the server
+	 * deliberately empties its answer cache then, and nothing else */
+	addl(L_SETFRAG, 100, 0, "N(100)");
 	nlt_all = nlt;
 }
 
@@ -365,6 +368,7 @@ static int apply(int li)
 		if ((M.qt == 5 || M.qt == 1) && L->a > 100) return 1;
 		plen = tm_setfrag(pkt, ++M.idseq, M.qt, M.uid, L->a, M.cmc++, DOM);
 		send_q(&SRC_A, pkt, plen);
+		for (int k = 0; k < 4; k++) M.cache[k].used = 0;      /* "cached answers may hold fragments larger than the new size, do not repeat them" */
 		break;
 	case L_RELOGIN: {
 		if (M.relogins >= 1) return 1;
